@@ -16,6 +16,13 @@ def S(t):
     return [ord(c) for c in t]
 
 
+def decode_utf8(bs):
+    try:
+        return [ord(c) for c in bytes(bs).decode("utf-8")]
+    except (UnicodeDecodeError, ValueError):
+        return list(bs)
+
+
 def fname(n):
     return n + ".TXT"
 
@@ -63,6 +70,8 @@ def render(ops):
             lines.append("CLOSE #%d" % o["n"])
         elif k == "closeall":
             lines.append("CLOSE")
+        elif k == "close2":
+            lines.append("CLOSE #%d, #%d" % (o["n"], o["m"]))
         elif k == "kill":
             lines.append('KILL "%s"' % fname(o["name"]))
         elif k == "name":
@@ -123,6 +132,12 @@ def gen(tier, rng):
                     kind = reader if reader != "mixed" else rng.choice(["lineinput", "input"])
                     r += [O(kind, n=2), O("eof", n=2)]
                 hs.append(("readback", w + r, ""))
+    # characters above 127 come back as the characters they were
+    for codes in ([99, 97, 102, 233], [233], [200, 44, 201], [65, 255, 66], [128, 32, 129]):
+        for reader in ("lineinput", "input"):
+            w = [O("open", n=1, name="A", mode="output"), O("print", n=1, text=codes), O("print", n=1, text=S("end")), O("close", n=1)]
+            r = [O("open", n=2, name="A", mode="input")] + [O(reader, n=2) for _ in range(3 if 44 in codes else 2)] + [O("eof", n=2)]
+            hs.append(("readback-high", w + r, ""))
     # numbers
     for t in ("1", "42", "7,8,9", "12,x"):
         hs.append(("readnum", [O("open", n=1, name="A", mode="output"), O("print", n=1, text=S(t)), O("close", n=1),
@@ -144,7 +159,7 @@ def gen(tier, rng):
             for m in ("input", "output", "append"):
                 alpha.append(O("open", n=n, name=f, mode=m))
         alpha += [O("print", n=n, text=S("p")), O("lineinput", n=n), O("input", n=n), O("eof", n=n), O("close", n=n)]
-    alpha += [O("closeall"), O("kill", name="A"), O("kill", name="B"), O("name", name="A", to="B"), O("name", name="B", to="C")]
+    alpha += [O("closeall"), O("close2", n=1, m=2), O("close2", n=2, m=1), O("kill", name="A"), O("kill", name="B"), O("name", name="A", to="B"), O("name", name="B", to="C")]
     pre = [O("open", n=3, name="A", mode="output"), O("print", n=3, text=S("l1")), O("print", n=3, text=S("l2,x")), O("close", n=3)]
     for a in alpha:
         hs.append(("protocol1", pre + [a], ""))
@@ -316,8 +331,9 @@ def run(tier, replay):
         if oc.get("k") == "budget":
             continue
         so = resp.get("stdout")
-        out = list(so.encode("utf-8")) if isinstance(so, str) else so.get("bytes", [])
-        files = [{"name": n, "bytes": b} for n, b in sorted(resp.get("files_after", {}).items())]
+        # characters above 127 leave the interpreter as UTF-8 (console and files alike): one code per character again
+        out = [ord(c) for c in so] if isinstance(so, str) else so.get("bytes", [])
+        files = [{"name": n, "bytes": decode_utf8(b)} for n, b in sorted(resp.get("files_after", {}).items())]
         if fam.startswith("random"):
             # the pad character of LSET / of records beyond the end is not fixed by the property: NUL counts as blank
             out = [32 if c == 0 else c for c in out]
